@@ -7,6 +7,7 @@ import (
 	"os"
 	"path/filepath"
 	"sort"
+	"strconv"
 	"strings"
 
 	"golang.org/x/tools/go/packages"
@@ -246,8 +247,36 @@ func newFnGenRaw(p *Prog, fc *FuncContract, pc *PkgContracts, pkgName string) *F
 }
 
 // GenFunc generates the obligations of one function; an UnsupportedErr is returned as error.
-func GenFunc(p *Prog, fn *ssa.Function, fc *FuncContract, pc *PkgContracts) (g *FnGen, err error) {
+// GenFuncAll: one generator per instantiation value (a single one without an `instantiate` clause).
+func GenFuncAll(p *Prog, fn *ssa.Function, fc *FuncContract, pc *PkgContracts) ([]*FnGen, error) {
+	if fc.InstName == "" {
+		g, err := GenFunc(p, fn, fc, pc, nil)
+		return []*FnGen{g}, err
+	}
+	var gs []*FnGen
+	hi := fc.InstHi
+	// development aid (selftest of must-fail mutants): cap the instantiation range; a capped run is never a registered check
+	if s := os.Getenv("GOVC_INST_MAX"); s != "" {
+		if n, err := strconv.Atoi(s); err == nil && n >= fc.InstLo && n < hi {
+			hi = n
+		}
+	}
+	for k := fc.InstLo; k <= hi; k++ {
+		g, err := GenFunc(p, fn, fc, pc, map[string]int64{fc.InstName: int64(k)})
+		if err != nil {
+			return gs, err
+		}
+		gs = append(gs, g)
+	}
+	return gs, nil
+}
+
+func GenFunc(p *Prog, fn *ssa.Function, fc *FuncContract, pc *PkgContracts, inst map[string]int64) (g *FnGen, err error) {
 	g = newFnGen(p, fn, fc, pc)
+	g.inst = inst
+	for _, k := range sortedKeysI(inst) {
+		g.fname += fmt.Sprintf("[%s=%d]", k, inst[k])
+	}
 	defer func() {
 		if r := recover(); r != nil {
 			if u, ok := r.(UnsupportedErr); ok {
@@ -295,4 +324,13 @@ func GenLemma(p *Prog, pc *PkgContracts, name string) (g *FnGen, err error) {
 	g.addCover("entry", "entry")
 	g.oblige("lemma", "lemma", env.trBool(lm.E), lm.Src, token.NoPos)
 	return g, nil
+}
+
+func sortedKeysI(m map[string]int64) []string {
+	var ks []string
+	for k := range m {
+		ks = append(ks, k)
+	}
+	sort.Strings(ks)
+	return ks
 }
